@@ -28,10 +28,12 @@ func salted(step Case, salt int) Case {
 	if c.Via == "encoding" {
 		e.Range = fmt.Sprintf("s%d", salt)
 	}
+	// every line carries the salt: two requests of one sequence that share a line of the
+	// alphabet still share it after salting
 	lines := make([][]Elem, len(c.Lines))
-	copy(lines, c.Lines)
-	last := len(lines) - 1
-	lines[last] = append(append([]Elem(nil), lines[last]...), e)
+	for i, l := range c.Lines {
+		lines[i] = append(append([]Elem(nil), l...), e)
+	}
 	c.Lines = lines
 	return c
 }
@@ -113,22 +115,32 @@ func checkHistory(c Case, shared map[string]*api, solos []string) (class, what s
 	return "", "", nEval
 }
 
+// historyAlphabet: cases chosen to collide. Header-line lists that share lines (L1 = a/b,
+// L2 = a/c;q=0.5, L3 = c/d, each with a different best offer), the same header with
+// different offers, the same header and offers with different defaults, four entry points.
+// The lists with several lines come first (see the order of the sequences below).
 func historyAlphabet() []Case {
-	one := func(es ...Elem) [][]Elem { return [][]Elem{es} }
+	l1 := []Elem{{Range: "a/b"}}
+	l2 := []Elem{{Range: "a/c", Q: "0.5"}}
+	l3 := []Elem{{Range: "c/d"}}
 	hs := []Case{
+		{Lines: [][]Elem{l1, l2}, WS: 1},
+		{Lines: [][]Elem{l2, l1}, WS: 1},
+		{Lines: [][]Elem{l1, l2, l3}, WS: 1},
+		{Lines: [][]Elem{l3, l2}, WS: 1},
+		{Lines: [][]Elem{l1}, WS: 1},
+		{Lines: [][]Elem{l2}, WS: 1},
+		{Lines: [][]Elem{l3}, WS: 1},
+		{Lines: [][]Elem{{{Range: "a/c", Q: "0.5"}, {Range: "*/*", Q: "0.1"}}}, WS: 1},
+		{Lines: [][]Elem{{{Range: "a/b", Q: "0"}}}, WS: 1},
 		{Absent: true},
-		{Lines: one(Elem{Range: "a/b"}), WS: 1},
-		{Lines: one(Elem{Range: "a/c", Q: "0.5"}, Elem{Range: "*/*", Q: "0.1"}), WS: 1},
-		{Lines: one(Elem{Range: "c/d"}), WS: 1},
-		{Lines: one(Elem{Range: "a/b", Q: "0"}), WS: 1},
 	}
-	offers := [][]string{nil, {"a/b"}, {"a/c", "a/b"}, {"a/b", "a/c"}}
+	offers := [][]string{{"a/c", "a/b"}, {"a/b"}, {"a/b", "a/c"}, nil}
 	var out []Case
 	add := func(h Case, via string, o []string, d string) {
 		h.Via, h.Offers, h.Default = via, o, d
 		out = append(out, h)
 	}
-	// the default is the innermost axis: neighbours differ in the default only
 	for _, h := range hs {
 		for _, o := range offers {
 			for _, d := range []string{"", "d/d", "e/e"} {
@@ -141,17 +153,42 @@ func historyAlphabet() []Case {
 		add(h, "handler", []string{"a/b"}, "")    // routed [a/b]; Respond negotiates on [a/b ""]
 		add(h, "handler", []string{"a/c"}, "a/b") // routed [a/c a/b]
 	}
+	g1 := []Elem{{Range: "gzip"}}
+	g2 := []Elem{{Range: "br", Q: "0.5"}}
+	g3 := []Elem{{Range: "identity"}}
 	for _, h := range []Case{
+		{Lines: [][]Elem{g1, g2}, WS: 1},
+		{Lines: [][]Elem{g2, g1}, WS: 1},
+		{Lines: [][]Elem{g1, g2, g3}, WS: 1},
+		{Lines: [][]Elem{g1}, WS: 1},
+		{Lines: [][]Elem{g2}, WS: 1},
+		{Lines: [][]Elem{g3}, WS: 1},
+		{Lines: [][]Elem{{{Range: "br", Q: "0.5"}, {Range: "*", Q: "0.1"}}}, WS: 1},
+		{Lines: [][]Elem{{{Range: "gzip", Q: "0"}}}, WS: 1},
 		{Absent: true},
-		{Lines: one(Elem{Range: "gzip"}), WS: 1},
-		{Lines: one(Elem{Range: "br", Q: "0.5"}, Elem{Range: "*", Q: "0.1"}), WS: 1},
-		{Lines: one(Elem{Range: "gzip", Q: "0"}), WS: 1},
-		{Lines: one(Elem{Range: "identity"}), WS: 1},
 	} {
-		add(h, "encoding", []string{"gzip"}, "")
 		add(h, "encoding", []string{"br", "gzip"}, "")
+		add(h, "encoding", []string{"gzip"}, "")
 	}
 	return out
+}
+
+// differ counts the attributes (entry point, header, offers, default) in which two cases differ.
+func differ(a, b *Case) int {
+	n := 0
+	if a.Via != b.Via {
+		n++
+	}
+	if a.Absent != b.Absent || fmt.Sprint(a.Lines) != fmt.Sprint(b.Lines) {
+		n++
+	}
+	if strings.Join(a.Offers, "|") != strings.Join(b.Offers, "|") {
+		n++
+	}
+	if a.Default != b.Default {
+		n++
+	}
+	return n
 }
 
 // historySweep runs first (the process-wide state is then untouched) and sequentially
@@ -195,10 +232,25 @@ func historySweep(r *report.R, thorough bool) {
 			r.Sample(map[string]any{"case": c, "observed": "every step as when run alone"})
 		}
 	}
-	// all ordered pairs, by increasing distance in the case list (neighbours collide most)
+	// all ordered pairs. First those that differ in at most one attribute (they collide on
+	// everything else), case by case in list order, so that state of bounded size is
+	// exercised before the salted sequences have filled it; then the others by increasing
+	// distance in the case list.
+	near := make([][]bool, n)
+	for a := 0; a < n; a++ {
+		near[a] = make([]bool, n)
+		for b := 0; b < n; b++ {
+			if differ(&cases[a], &cases[b]) <= 1 {
+				near[a][b] = true
+				run(a, b)
+			}
+		}
+	}
 	for d := 0; d < n; d++ {
 		for a := 0; a < n; a++ {
-			run(a, (a+d)%n)
+			if b := (a + d) % n; !near[a][b] {
+				run(a, b)
+			}
 		}
 	}
 	// the whole list as one history, forward and backward
@@ -211,10 +263,11 @@ func historySweep(r *report.R, thorough bool) {
 	run(bwd...)
 	triples := 0
 	if thorough {
-		// all ordered triples of the type / format / encoding cases
+		// all ordered triples of a sub-alphabet: every header, offers [a/c a/b] and [a/b],
+		// defaults "" and d/d, entry points type / format / encoding
 		var small []int
 		for i, c := range cases {
-			if c.Via != "handler" {
+			if c.Via != "handler" && len(c.Offers) > 0 && c.Offers[len(c.Offers)-1] != "a/c" && c.Default != "e/e" {
 				small = append(small, i)
 			}
 		}
@@ -229,6 +282,6 @@ func historySweep(r *report.R, thorough bool) {
 		}
 	}
 	t.flush(r, "")
-	r.Set("sweep_history", map[string]any{"case_alphabet": n, "entry_points": "type 60 (5 headers x 4 offer lists x 3 defaults), format 20, handler 10 (2 API configurations x 5 headers, one shared instance each), encoding 10",
-		"ordered_pairs": n * n, "whole_list_forward_and_backward": 2, "ordered_triples_without_handler": triples, "wall_s": time.Since(t0).Seconds()})
+	r.Set("sweep_history", map[string]any{"case_alphabet": n, "entry_points": "type 120 (10 header-line lists sharing lines x 4 offer lists x 3 defaults), format 40, handler 20 (2 API configurations x 10 headers, one shared instance each), encoding 18 (9 headers x 2 offer lists)",
+		"ordered_pairs": n * n, "whole_list_forward_and_backward": 2, "ordered_triples_of_sub_alphabet": triples, "wall_s": time.Since(t0).Seconds()})
 }
